@@ -26,6 +26,7 @@ type Val struct {
 	S          string
 	B, O, L, C string // slice: base, offset, length, capacity
 	Fs         []*Val
+	Owner      string // for values loaded from a struct field: the reference of the object holding the field
 	Org        string // provenance for dynamic calls, e.g. "field github.com/.../allocation.Manager.permissionHandler"
 	Clo        *cloInfo
 }
